@@ -1,21 +1,26 @@
 #!/bin/bash
 # bin/trybenign.sh <patch.diff> — apply a behaviour-preserving change to a scratch copy of /repo and run EVERY check (quick)
 # against it; every check must stay silent (exit 0). Prints the checks that do not, with their reports.
+# All twenty properties are run by one process (`-prop all`: one load of the repository, a fresh walker and report per property).
 HERE=$(cd "$(dirname "$0")/.." && pwd)
 . "$HERE/bin/env.sh"
 patchf=$1
-dir=$(mktemp -d /var/tmp/sebuf-b.XXXXXX)
+BIN="$HERE/bin/sebufcheck"
+if [ ! -x "$BIN" ] || [ -n "$(find "$HERE/checker" -newer "$BIN" -name '*.go' 2>/dev/null | head -1)" ]; then
+  (cd "$HERE/checker" && go build -o "$BIN" .) 1>&2
+fi
+dir=$(mktemp -d /var/tmp/sebuf-b.XXXXXX); out=$(mktemp -d /var/tmp/sebuf-o.XXXXXX)
 cp -r /repo/. "$dir"/ && rm -rf "$dir/.git"
-(cd "$dir" && patch -p1 -s < "$patchf") || { echo "patch does not apply"; rm -rf "$dir"; exit 3; }
-props=$(python3 -c "import json;print(' '.join(sorted(c['property_id'] for c in json.load(open('$HERE/MANIFEST.json'))['checks'])))")
-tmp=$(mktemp -d)
-for p in $props; do ( out=$(mktemp -d /var/tmp/sebuf-o.XXXXXX); VERIF_REPO="$dir" VERIF_OUT="$out" "$HERE/bin/run" $p quick > $tmp/$p.out 2>&1; echo $? > $tmp/$p.code; rm -rf "$out" ) & done
-wait
+(cd "$dir" && patch -p1 -s < "$patchf") || { echo "patch does not apply"; rm -rf "$dir" "$out"; exit 3; }
+log=$(mktemp)
+VERIF_OUT="$out" "$BIN" -repo "$dir" -verif "$HERE" -prop all -tier quick > "$log" 2>&1
+n=$(grep -c "^SUMMARY property=" "$log")
 bad=0
-for p in $props; do
-  code=$(cat $tmp/$p.code)
-  if [ "$code" != "0" ]; then bad=1; echo "ALARM $p exit=$code"; sed "s#$dir/##g" $tmp/$p.out | grep -v "^KNOWN-FINDING" | grep -A1 -E "^VIOLATION|^UNRESOLVED|^UNDECIDED|^VACUOUS|rule=" | grep -v "^--" | cut -c1-400 | head -12; fi
+[ "$n" -lt 20 ] && { echo "ALARM: only $n of 20 checks finished"; tail -5 "$log"; bad=1; }
+for p in $(grep -o "^VIOLATION property=C[0-9]*" "$log" | sed 's/.*=//' | sort -u); do
+  bad=1; echo "ALARM $p exit=1"
+  sed "s#$dir/##g" "$log" | grep -A1 "^VIOLATION property=$p" | grep -v "^--" | grep -v "^VIOLATION" | cut -c1-400 | head -8
 done
-[ $bad = 0 ] && echo "silent on all $(echo $props | wc -w) checks"
-rm -rf "$dir" "$tmp"
+[ $bad = 0 ] && echo "silent on all $n checks"
+rm -rf "$dir" "$out" "$log"
 exit $bad
